@@ -476,7 +476,7 @@ func genWOp(t *rapid.T) WOp {
 	case 8:
 		return WOp{Kind: "ping", Ack: rapid.Bool().Draw(t, "ack"), N: rapid.IntRange(0, 255).Draw(t, "seed")}
 	case 9:
-		return WOp{Kind: "goaway", Last: rapid.SampledFrom([]uint32{0, 1, 0x7fffffff}).Draw(t, "last"), Code: rapid.SampledFrom([]uint32{0, 2, 0xffffffff}).Draw(t, "code"), N: rapid.SampledFrom([]int{0, 5, 100}).Draw(t, "n")}
+		return WOp{Kind: "goaway", Last: rapid.SampledFrom([]uint32{0, 1, 0x7fffffff}).Draw(t, "last"), Code: rapid.SampledFrom([]uint32{0, 2, 0xffffffff}).Draw(t, "code"), N: rapid.SampledFrom([]int{0, 5, 100, 16376, 16377, 20000, 70000}).Draw(t, "gn")}
 	case 10:
 		return WOp{Kind: "window_update", Stream: rapid.SampledFrom([]uint32{0, 1, 0x7fffffff}).Draw(t, "wsid"), Inc: rapid.SampledFrom([]uint32{1, 65535, 0x7fffffff}).Draw(t, "inc")}
 	default:
